@@ -135,13 +135,16 @@ def report_content(mdib_file, n_steps, seeds, kinds=None):
             properties.strongbind(lp.pmdib, transaction=lambda tr: commits.append((tr, lp.pmdib.mdib_version_group)))
             h = History(lp, seed)
             for i in range(n_steps):
-                del commits[:]
-                n0 = len(lp.sent)
+                with lp.pmdib.mdib_lock:      # no background commit (alert system self check) between these two reads
+                    del commits[:]
+                    n0 = len(lp.sent)
                 kind, detail = h.step(kinds[i % len(kinds)] if kinds else None)
-                new = lp.sent[n0:]
-                if len(commits) != 1:
+                with lp.pmdib.mdib_lock:
+                    new = list(lp.sent[n0:])
+                    commits_now = list(commits)
+                if len(commits_now) != 1:
                     continue     # set_location may run more than one transaction: checked by the order test only
-                tr, group = commits[0]
+                tr, group = commits_now[0]
                 seen = set()
                 for mgr, action, mvg, body in new:
                     cases += 1
@@ -245,7 +248,8 @@ def _order(components, label):
             if missing:
                 bad.append({'key': f'delivery-missing:{label}', 'detail': f'consumer {i} never received the reports of versions {sorted(missing)[:5]}'})
         for i, m in enumerate(lp.consumer_mdibs):
-            d = mdib_diff(lp.pmdib, m)
+            with lp.pmdib.mdib_lock:
+                d = mdib_diff(lp.pmdib, m)
             if d:
                 bad.append({'key': f'mirror-after-concurrent-writers:{label}', 'detail': f'consumer {i}: {d[:2]}'})
     return cases, bad
